@@ -31,7 +31,8 @@ def _readback(c):
             continue
         coords_desc = c.desc.split(" -> ")[0].split(", ")
         tdesc, cdescs, udesc = coords_desc[0], coords_desc[1:-1], coords_desc[-1]
-        desc = ", ".join([tdesc] + cdescs) + " -> " + udesc
+        odesc = c.desc.split(" -> ")[1]                    # the result is laid out as the output expression says
+        desc = ", ".join([odesc] + cdescs) + " -> " + udesc
         try:
             back = einx.get_at(desc, r[1][0], *[a.copy() for a in c.arrays[1:-1]], backend=b, **c.size_kwargs())
         except Exception as e:  # noqa: BLE001
